@@ -25,3 +25,6 @@ Print Assumptions C04_lift_range.
 Check C04_sub_total : forall a b, canonp (rem a) -> canonp (rem b) -> (blade b + 1 <= blade a)%Z ->
   Rabs (theta (geometric_sub a b) - (theta a - theta b)) <= R_ eps10 + 3 * / 4503599627370496.
 Print Assumptions C04_sub_total.
+Check C04_add_sub : forall a b, canonp (rem a) -> canonp (rem b) -> (1 <= blade a)%Z ->
+  Rabs (theta (geometric_sub (geometric_add a b) b) - theta a) <= 2 * R_ eps10 + 5 * / 4503599627370496.
+Print Assumptions C04_add_sub.
